@@ -236,6 +236,25 @@ def run_one(tape, tier, prop):
             elif pA is not None:
                 problems.append(("flagged_run_inconsistent:" + pA[0], dict(pA[1], image=name, cut=k)))
             hist = (name, k)
+    # a new session under a name that was used before: the files an older session left behind (one that was stopped
+    # inside a Markov level leaves S.sav and S.omn) belong to that session; the flags of the new one are its own
+    if not problems and t.chance(1, 3):
+        older, newer = t.sample(["D", "S", "L", "SL"], 2)
+        resume.clean_sessions(wr)
+        m_lines = sum(len(e["lines"]) for e in runs[older].emitted if len(e["pt"]) == 1 and e["pt"][0][0] == "M")
+        trig = ("omen", 1, t.between(1, max(1, min(m_lines, 12)))) if m_lines else ("pop", t.between(1, max(1, len(runs[older].emitted))))
+        rO = run_img(F[older], trigger=trig)
+        left = sorted(fn for fn in os.listdir(wr) if fn.endswith((".sav", ".omn")))
+        if rO.exc is None and left:
+            res.faults["new_session_under_a_name_with_leftover_files"] += 1
+            res.stats["leftover_" + "+".join(x.rsplit(".", 1)[1] for x in left)] += 1
+            rN = run_img(F[newer])
+            if rN.exc:
+                problems.append(("raised", {"image": newer, "exception": rN.exc[-1200:], "leftover": left}))
+            elif seq_of(rN) != seq_of(runs[newer]) or rN.ctx.guesses != runs[newer].ctx.guesses:
+                problems.append(("new_session_takes_flags_or_position_from_leftover_files",
+                                 {"image": newer, "older_session": older, "leftover": left,
+                                  "emitted": len(rN.ctx.guesses), "expected": len(runs[newer].ctx.guesses)}))
     for kind, det in problems:
         res.violate("C14", kind, det)
     multi_c = any(v[0] == "C" and len(g) >= 2 for v, g in spec["vars"].items())
